@@ -168,6 +168,70 @@ def signature(err, sig, phase):
 
 
 # ---------------------------------------------------------------------------------------------
+# input-side cause classes of the three open arithmetic-wrap defects
+# ---------------------------------------------------------------------------------------------
+# A wild read lands wherever the wrapped offset points, so ONE defect shows up under many (sanitizer kind, frame)
+# combinations, some of them rare.  While the corresponding `cause|...` entry is listed as open, a signature that is
+# not itself listed is attributed to the cause class if the crashing INPUT satisfies the exact trigger condition of
+# that defect (computed here from the bytes, with the loader's own 32-bit arithmetic).  Listed signatures keep their
+# own key; once the defect is fixed the cause entry disappears from the open list and nothing is attributed any more.
+
+def input_causes(b):
+    out = []
+    n = len(b)
+    if n < 32 or b[:4] != b"NVM\x01":
+        return out
+    ver, flags, entry, nsec = struct.unpack_from("<IIII", b, 4)
+    if ver != 1 or nsec > 16 or 32 + 12 * nsec > n:
+        return out
+    code_size = 0
+    fn_secs = []
+    for i in range(nsec):
+        t, off, size = struct.unpack_from("<III", b, 32 + 12 * i)
+        if off + size >= 1 << 32:
+            if (off + size) & 0xFFFFFFFF <= n:
+                out.append("cause|section-bounds-wrap")     # passes `sec_offset + sec_size > size` only by wrapping
+            break
+        if off + size > n:
+            break                                           # the loader refuses the file here
+        if t == 2:
+            pos = 0
+            while pos + 4 <= size:
+                slen = struct.unpack_from("<I", b, off + pos)[0]
+                pos += 4
+                if pos + slen >= 1 << 32:
+                    if (pos + slen) & 0xFFFFFFFF <= size:
+                        out.append("cause|string-length-wrap")
+                    break
+                if pos + slen > size:
+                    break
+                pos += slen
+        elif t == 1:
+            code_size += size
+        elif t == 3:
+            fn_secs.append((off, size))
+    if out:
+        return out
+    for off, size in fn_secs:
+        for k in range(size // 18):
+            co, cl = struct.unpack_from("<II", b, off + 18 * k + 6)
+            if co <= code_size and co + cl >= 1 << 32 and (co + cl) & 0xFFFFFFFF <= code_size:
+                out.append("cause|verifier-range-wrap")
+                return out
+    return out
+
+
+def final_key(ctx, key, blob):
+    """the violation key to report: the signature, or the open cause class that explains an unlisted signature"""
+    if key in ctx.open or not blob:
+        return key
+    for c in input_causes(blob):
+        if c in ctx.open:
+            return c
+    return key
+
+
+# ---------------------------------------------------------------------------------------------
 # running a list of cases through the probe (restart after every death)
 # ---------------------------------------------------------------------------------------------
 
@@ -498,7 +562,7 @@ def run(ctx):
                 s = signature(dd[3], dd[2], dd[1])
                 got = s[0] if s else "resource-limit"
                 if s:
-                    ctx.violation(s[0], "witness findings/C13/%s: %s\n%s" % (wn, s[1], dd[3][:3000]), {"case.nvm": blob, "report.txt": dd[3]})
+                    ctx.violation(final_key(ctx, s[0], blob), "witness findings/C13/%s: %s\n%s" % (wn, s[1], dd[3][:3000]), {"case.nvm": blob, "report.txt": dd[3]})
             elif rec and rec.get("T") in ("load", "verify"):
                 got = "loader-timeout"
                 ctx.violation("loader-timeout", "witness findings/C13/%s: loader/verifier CPU budget" % wn, {"case.nvm": blob})
@@ -550,8 +614,10 @@ def run(ctx):
                     samples.extend(res["samples"])
                 retry.extend(res["retry"])
                 for key, kind, phase, what, blob, err in res["viol"]:
-                    e = sigs.setdefault(key, {"count": 0, "kinds": collections.Counter(), "first": None})
+                    e = sigs.setdefault(key, {"count": 0, "kinds": collections.Counter(), "first": None, "blobs": []})
                     e["count"] += 1
+                    if key not in ctx.open and len(e["blobs"]) < 2000:
+                        e["blobs"].append(blob)
                     for fam in kind.split("+"):
                         e["kinds"][fam] += 1
                     if e["first"] is None or (blob and len(blob) < len(e["first"][3])):
@@ -571,9 +637,17 @@ def run(ctx):
                 ctx.violation("loader-timeout", "loader/verifier used more than %d CPU seconds twice on a %d-byte case (%s), phase %s"
                               % (CPU_LOAD, len(blob), kind, rec["T"]), {"case.nvm": blob, "cmd.txt": "echo case.nvm | vm_probe --cpu-load %d\n" % CPU_LOAD})
 
+        attributed = collections.Counter()
         for key in sorted(sigs):
             e = sigs[key]
             kind, phase, what, blob, err = e["first"]
+            if key not in ctx.open:
+                # unlisted signature: every case must be explained by an open cause class, else it is reported as it is
+                rk = final_key(ctx, key, blob) if all(final_key(ctx, key, bb) != key for bb in e["blobs"]) else key
+                if rk != key:
+                    attributed[key + "  =>  " + rk] += e["count"]
+                    what = "[signature %s, attributed to %s by the input's trigger condition] %s" % (key, rk, what)
+                    key = rk
             for _ in range(e["count"]):
                 ctx.violation(key, "%s (phase %s, mutation %s, %d-byte case; seen %d times, mutation families %s)\n%s"
                               % (what, phase, kind, len(blob), e["count"], dict(e["kinds"].most_common(6)), err[:3500]),
@@ -600,7 +674,7 @@ def run(ctx):
                     cli_out["cpu-limit (not a verdict)"] += 1
                     continue
                 cli_out["CRASH " + s[0]] += 1
-                ctx.violation(s[0], "nano_vm (asan) on a %s case (probe outcome: %s): %s\n%s" % (kind, oc, s[1], err[:3500]),
+                ctx.violation(final_key(ctx, s[0], open(path, "rb").read()), "nano_vm (asan) on a %s case (probe outcome: %s): %s\n%s" % (kind, oc, s[1], err[:3500]),
                               {"case.nvm": open(path, "rb").read(), "report.txt": err, "cmd.txt": "NLVERIF_FUEL=%d nano_vm case.nvm   # asan flavor\n" % FUEL})
                 continue
             if r.rc not in (0, 1):
@@ -661,6 +735,7 @@ def run(ctx):
             "opcode_histogram": {names.get(o, "0x%02x" % o): c for o, c in ops.most_common()},
             "cases_by_mutation_family": dict(kinds.most_common()),
             "signature_table": {k: {"count": v["count"], "families": dict(v["kinds"].most_common(5))} for k, v in sorted(sigs.items())},
+            "unlisted_signatures_attributed_to_open_cause_classes": dict(attributed),
             "witnesses_replayed": wit_seen,
             "cli_cases": n_cli,
             "cli_outcomes": dict(cli_out.most_common()),
